@@ -536,6 +536,8 @@ def r19_8(run):
         for f in fns:
             r = ANF(ix, f, strip=False).run()
             params = [("n", p) for p in f.params() if p not in ("self", "cls")]
+            if f.raw_node.args.vararg is not None:
+                params.append(("n", f.raw_node.args.vararg.arg))
             for s_ in r.stores():
                 b = base_of(s_.base)
                 if b[0] == "call" and b[1][0] == "x" and b[1][1].startswith("numpy."):
@@ -548,6 +550,23 @@ def r19_8(run):
                     run.ob("%s|result-buffer-is-float|%s" % (f.short, tshow(b)[:50]), ok,
                            "the array %s fills with computed values does not inherit the dtype of its argument" % f.short,
                            run.where(f, s_.node), detail=tshow(b)[:120])
+            # np.full_like(<argument>, v) casts the fill value v to the dtype of the caller's query at once
+            seen_ = set()
+            for e in r.events:
+                for t in ([e.term] if e.kind == "call" else [getattr(e, "value", None)]):
+                    if t is None:
+                        continue
+                    for x in walk(t):
+                        if x[0] == "call" and x[1] == ("x", "numpy.full_like") and x[2] and id(x) not in seen_:
+                            seen_.add(id(x))
+                            from_arg = any(contains(x[2][0], p) for p in params)
+                            dt = dict(x[3]).get("dtype") or (x[2][2] if len(x[2]) > 2 else None)
+                            okf = not from_arg or (dt is not None and dt in (("x", "builtins.float"), ("x", "numpy.float64"), ("c", "float")))
+                            n += 1
+                            run.analysed(f)
+                            run.ob("%s|filled-buffer-is-float|%s" % (f.short, tshow(x)[:50]), okf,
+                                   "a buffer %s fills with a computed value does not inherit the dtype of its argument" % f.short,
+                                   run.where(f, e.node), detail=tshow(x)[:120])
     run.ob("result-buffers-found", n >= 1, "stores into freshly created numpy buffers in the library classes: %d" % n, "std_types / properties")
     run.floor(2)
 
